@@ -27,6 +27,9 @@ type Runner struct {
 	NoProj bool // replicas only need hashes
 	// per-run raw results (for replica comparison)
 	Raw []J
+	// optional annotation of a step's result before it is recorded (twin mode)
+	Annot func(ev M, res J)
+	txIdx int
 }
 
 func NewRunner(out *bufio.Writer) *Runner {
@@ -252,6 +255,7 @@ func (r *Runner) Step(ev M) error {
 	case "BeginBlock":
 		dt := mI64(ev, "dt")
 		p := r.W.BeginBlock(dt)
+		r.txIdx = 0
 		res["panic"] = p != ""
 		res["ok"] = p == ""
 		if p != "" {
@@ -292,6 +296,8 @@ func (r *Runner) Step(ev M) error {
 			rr := r.W.App.DeliverTx(abci.RequestDeliverTx{Tx: bz})
 			res = txResJ(rr.Code, rr.Codespace, rr.Data, rr.Log, rr.GasWanted, rr.GasUsed, r)
 			res["gasW"], res["gasU"] = rr.GasWanted, rr.GasUsed
+			res["rawData"] = fmt.Sprintf("%X", rr.Data)
+			r.txIdx++
 			m, b := coinEvents(rr.Events)
 			res["mints"], res["burns"] = m, b
 			if rr.Code == 0 {
@@ -301,15 +307,22 @@ func (r *Runner) Step(ev M) error {
 			rr := r.W.App.CheckTx(abci.RequestCheckTx{Tx: bz, Type: abci.CheckTxType_New})
 			res = txResJ(rr.Code, rr.Codespace, rr.Data, rr.Log, rr.GasWanted, rr.GasUsed, r)
 		}
+	case "Crash":
+		// the process dies here: nothing is executed; Restart re-opens the database
+		res["ok"] = true
 	case "Restart":
 		if err := r.W.Restart(); err != nil {
 			return err
 		}
+		r.txIdx = 0
 		res["ok"] = true
 		res["height"] = r.W.App.LastBlockHeight()
 		res["hash"] = fmt.Sprintf("%X", r.W.App.LastCommitID().Hash)
 	default:
 		return fmt.Errorf("harness: unknown action %q", a)
+	}
+	if r.Annot != nil {
+		r.Annot(ev, res)
 	}
 	rec["res"] = res
 	if a == "CheckTx" && mBool(ev, "reset") && res["ok"] == true {
